@@ -30,6 +30,8 @@ import (
 //vp:all stub time.Until = vpUntil
 //vp:all stub time.Since = vpSince
 //vp:all stub (*net/url.URL).Query = vpURLQuery
+//vp:all stub (*net/http.Request).FormValue = vpFormValue
+//vp:all stub (*net/http.Request).PostFormValue = vpPostFormValue
 
 func vpmUUIDNew() uuid.UUID { return uuid.UUID{} }
 func vpItoa(i int) string   { return strconv.Itoa(i) }
@@ -105,6 +107,7 @@ func vpResetWeb() {
 	vpAuthRes, vpAuthErr, vpNtlmRes, vpNtlmErr = nil, nil, nil, nil
 	vpBasicUser, vpBasicPass, vpBasicOK = "", "", false
 	vpQueryVals = nil
+	vpFormVals = nil
 	vpLastSec, vpLastNow = 0, time.Time{}
 	vpDurKnown = false
 }
@@ -139,6 +142,17 @@ func vpNewAuthClient(cc grpc.ClientConnInterface) auth.AuthenticateClient { retu
 
 func vpBasicAuth(r *http.Request) (string, string, bool) { return vpBasicUser, vpBasicPass, vpBasicOK }
 func vpURLQuery(u *url.URL) url.Values                  { return vpQueryVals }
+
+// a request's parameters: the query string, and — for FormValue — a posted form, which comes first
+var vpFormVals url.Values
+
+func vpFormValue(r *http.Request, key string) string {
+	if vs := vpFormVals[key]; len(vs) > 0 {
+		return vs[0]
+	}
+	return vpQueryVals.Get(key)
+}
+func vpPostFormValue(r *http.Request, key string) string { return vpFormVals.Get(key) }
 
 // time.Until / time.Since on the harness clock, in whole seconds (the clock has no finer grain). The
 // seconds are remembered beside the Duration so that the models which consume the Duration (go-cache
